@@ -80,10 +80,10 @@ func (BigF) Inv(a *big.Int) *big.Int {
 	}
 	return new(big.Int).ModInverse(a, P)
 }
-func (BigF) IsZero(a *big.Int) bool       { return new(big.Int).Mod(a, P).Sign() == 0 }
-func (BigF) Equal(a, b *big.Int) bool     { return new(big.Int).Mod(new(big.Int).Sub(a, b), P).Sign() == 0 }
-func (BigF) FromBig(v *big.Int) *big.Int  { return new(big.Int).Mod(v, P) }
-func (BigF) ToBig(a *big.Int) *big.Int    { return new(big.Int).Mod(a, P) }
+func (BigF) IsZero(a *big.Int) bool      { return new(big.Int).Mod(a, P).Sign() == 0 }
+func (BigF) Equal(a, b *big.Int) bool    { return new(big.Int).Mod(new(big.Int).Sub(a, b), P).Sign() == 0 }
+func (BigF) FromBig(v *big.Int) *big.Int { return new(big.Int).Mod(v, P) }
+func (BigF) ToBig(a *big.Int) *big.Int   { return new(big.Int).Mod(a, P) }
 
 type fastE = gfr.Element
 
